@@ -184,8 +184,8 @@ def run_property(pid, tier, seed, only=None, jobs=None):
             lines.append(f"INCONCLUSIVE property={pid} obligation={rec['oid']} verdict={v} {str(rec.get('detail',''))[:600]}")
             if exit_code == 0:
                 exit_code = 2
-    if exit_code == 1:
-        pass
+    if nviol:
+        exit_code = 1   # a natively reproduced violation dominates inconclusive obligations
     wall = time.time() - t0
     write_evidence(pid, tier, seed, mod, results, build_info, wall, nviol, lines)
     for l in lines:
